@@ -282,6 +282,9 @@ package dns
 // the implementation)
 //@ iface PrivateRdata.Unpack
 //@   modifies nothing
+// ... and Parse only the value it is called on: it is handed text tokens, not the parser
+//@ iface PrivateRdata.Parse
+//@   modifies nothing
 //@ iface hash.Hash.Reset
 //@   pure
 //@ extern crypto/sha1.New
